@@ -120,6 +120,22 @@ func runC18Colour(c *Ctx) {
 		}
 		isNil := isNilConst(ret.Results[0])
 		construct := fmt.Sprintf("detectCyclicNode|return#%d", nRet)
+		if !isNil {
+			// definitely non-nil: a fresh edge, or a value tested non-nil on this path
+			definite := false
+			if _, ok := ret.Results[0].(*ssa.Alloc); ok {
+				definite = true
+			}
+			for ifi, outcome := range controllingConds(b) {
+				if v, nilSucc, ok := nilTest(ifi); ok && v == ret.Results[0] && (nilSucc == 0) != outcome {
+					definite = true
+				}
+			}
+			if !definite {
+				c.bad(construct, ret.Pos(), "the result of a deeper search is returned without testing it: when it is nil the remaining neighbours are skipped and the node stays active (missed cycles, false cycles)")
+				continue
+			}
+		}
 		switch {
 		case isNil && black:
 			c.ok(construct, ret.Pos(), "no cycle: the node is finished before returning")
